@@ -424,15 +424,15 @@ def make_term(
     if coefficient == 1 and exponent is None:
         return varExp
 
-    multExp = MultiplyExpression(constExp, varExp)
     if exponent is None:
-        return multExp
+        return MultiplyExpression(constExp, varExp)
 
     expConstExp = ConstantExpression(exponent)
     if coefficient == 1:
         return PowerExpression(varExp, expConstExp)
 
-    return PowerExpression(multExp, expConstExp)
+    # The exponent applies to the variable only: c * v^e
+    return MultiplyExpression(constExp, PowerExpression(varExp, expConstExp))
 
 
 class TermResult:
